@@ -1,6 +1,7 @@
 import Verif.Util.Proto
 import Verif.Model.Types.Subtype
 import Verif.Model.Types.SubStruct
+import Verif.Model.Types.Wf
 import Verif.Gen.SubtypeRules
 /-! Driver for stream `types` (C08): ops `sub A B`, `refl A`, `bounds A`, `trans A B C`; types in the
     Polish notation of `stream_types.go`.  The model is the interpretation of the *regenerated* rules;
@@ -82,19 +83,6 @@ def headTag : Ty → String
   | .ref .. => "ref" | .comp .. => "comp" | .iface _ => "iface" | .inter _ => "inter" | .fn .. => "fn"
   | .capAny => "cap" | .cap _ => "cap" | .range _ => "range" | _ => "other"
 
-/-- `Never` directly below an optional / array / dictionary constructor somewhere in the type: such a
-    container is a subtype of containers of resources without being resource-kinded itself -/
-def neverUnderContainer : Ty → Bool
-  | .opt t => t == never || neverUnderContainer t
-  | .varArr t => t == never || neverUnderContainer t
-  | .constArr t _ => t == never || neverUnderContainer t
-  | .dict k v => k == never || v == never || neverUnderContainer k || neverUnderContainer v
-  | .ref _ t => neverUnderContainer t
-  | .fn _ p r => neverUnderContainer p || neverUnderContainer r
-  | .consT t r => neverUnderContainer t || neverUnderContainer r
-  | .cap t => neverUnderContainer t
-  | _ => false
-
 def optNever : Ty → Bool
   | .opt t => t == never || optNever t
   | _ => false
@@ -128,7 +116,8 @@ def judge (op : List String) (go : String) : Verdict :=
       let mChk := check rules fuel ta tb
       let mEq := ta == tb
       let mSt := Struct.sub ta tb
-      let tags := ["sub", "sub-" ++ headTag ta, "super-" ++ headTag tb, "r-" ++ bit mIs] ++
+      let tags := ["sub", "sub-" ++ headTag ta, "super-" ++ headTag tb, "r-" ++ bit mIs,
+                   (if ta.wf && tb.wf then "wf" else "not-wf")] ++
         (if mIs && !mEq then ["!nt"] else [])
       let eq := fieldOf go "eq"; let seq := fieldOf go "seq"; let rt := fieldOf go "rt"
       let is := fieldOf go "is"; let chk := fieldOf go "chk"
@@ -170,10 +159,15 @@ def judge (op : List String) (go : String) : Verdict :=
       let ac := isSub rules (fuelFor ta tc) ta tc
       let m := bit ab ++ bit bc ++ bit ac
       let mSt := bit (Struct.sub ta tb) ++ bit (Struct.sub tb tc) ++ bit (Struct.sub ta tc)
-      let tags := ["trans", "chain-" ++ bit ab ++ bit bc] ++ (if ab && bc then ["!nt"] else [])
+      -- the region where `trans_kindstable_partial` proves transitivity: sub-most type kind-stable in
+      -- covariant position, super-most type in contravariant position; a failure outside it is the known finding
+      let ks := kindStable ta && stab false tc
+      let good := ta.wf && tb.wf && tc.wf && ta.anyTop && tb.anyTop && tc.anyTop
+      let tags := ["trans", "chain-" ++ bit ab ++ bit bc, (if ks then "kindstable" else "not-kindstable"),
+                   (if good then "wf" else "not-wf")] ++ (if ab && bc then ["!nt"] else [])
       if go.toList.contains 'P' then .violation "go-panic-or-internal" "booleans" tags
       else if go == "110" then
-        .violation (if neverUnderContainer ta then "trans-never-under-container" else "trans-failure")
+        .violation (if !ks then "trans-never-under-container" else "trans-failure")
           "A <: B and B <: C imply A <: C" tags
       else if go == m && go == mSt then .ok tags else .modelDiff (m ++ " st=" ++ mSt) tags
     | _, _, _ => .skip "bad-type"
